@@ -44,6 +44,23 @@ def evaluate(case):
         return SKIP(why)
     sc = sample_cols(centre)
     nev, nt, outs = 0, False, []
+    # one pre-allocated array, analysed with decoy content, overwritten in place, analysed again
+    decoy = 2.0 * sig[::-1] + 1.0
+    buf = np.empty(len(sig))
+    for content in (decoy, sig):
+        buf[:] = content
+        try:
+            dfb = compute_features(buf, 64, (6, 14), center_extrema=centre, burst_method='amp',
+                                   threshold_kwargs={'burst_fraction_threshold': .5}, burst_kwargs={'amp_threshes': at})
+        except Exception:      # noqa  (the decoy may fail the precondition)
+            dfb = None
+    nev += 1
+    mask = detect_bursts_dual_threshold(sig, 64, at, (6, 14), min_n_cycles=3)
+    bf = np.array([mask[int(a):int(b) + 1].mean() for a, b in zip(dfb[sc['last']], dfb[sc['next']])])
+    if not same_values(dfb['burst_fraction'].to_numpy(), bf):
+        return VIOL({'kind': 'amp', 'centre': centre, 'what': 'burst_fraction', 'via': 'aliased-buffer'},
+                    'after the same array object was overwritten in place, burst_fraction is not that of the new content',
+                    expected=bf.tolist(), observed=dfb['burst_fraction'].tolist(), evals=nev)
     plan = []
     RV = ROUTE_VALS_T if FULL else ROUTE_VALS
     if not FULL:
